@@ -24,7 +24,13 @@ type descriptor struct {
 	// gateway is re-entered; the alternatives withdrawn in the first round
 	// must be armed again)
 	Loop bool `json:"loop,omitempty"`
+	// Timer: the last alternative is a timer catch event (duration timer of 10 s
+	// on a mock clock, running from the creation of the instance); "clock"
+	// stimuli move the clock, alone or concurrently with competing events
+	Timer bool `json:"timer,omitempty"`
 }
+
+const timerExpr = "PT10S"
 
 func build(d descriptor) *gen.Graph {
 	b := gen.NewB()
@@ -63,13 +69,23 @@ func build(d descriptor) *gen.Graph {
 	return b.G
 }
 
-func evOf(d gen.EventDef) *model.Ev { return &model.Ev{Kind: d.Kind, Ref: d.Ref, Op: d.Op} }
+func evOf(d gen.EventDef) *model.Ev {
+	if d.Kind == "timer" {
+		return &model.Ev{Kind: "timer", Ref: d.TimerExpr}
+	}
+	return &model.Ev{Kind: d.Kind, Ref: d.Ref, Op: d.Op}
+}
 
 func draw(rt *rapid.T) descriptor {
 	d := descriptor{PreTask: rapid.Bool().Draw(rt, "preTask"), Merge: rapid.Bool().Draw(rt, "merge"), Perturb: uint64(rapid.IntRange(0, 300).Draw(rt, "perturb"))}
 	n := rapid.IntRange(2, 3).Draw(rt, "alts")
+	d.Timer = rapid.IntRange(0, 2).Draw(rt, "timerAlt") == 0
 	for i := 0; i < n; i++ {
 		ref := fmt.Sprintf("a%d", i)
+		if d.Timer && i == n-1 {
+			d.Alts = append(d.Alts, gen.EventDef{Kind: "timer", TimerKind: "timeDuration", TimerExpr: timerExpr})
+			continue
+		}
 		switch rapid.IntRange(0, 2).Draw(rt, "defKind") {
 		case 0:
 			d.Alts = append(d.Alts, gen.EventDef{Kind: "signal", Ref: ref})
@@ -84,15 +100,40 @@ func draw(rt *rapid.T) descriptor {
 	if rec.Exclude("C06-F2") {
 		maxLate = 0
 	}
+	clockNow := 0
 	ev := func() drive.Stim {
 		if rapid.IntRange(0, 6).Draw(rt, "nonMatching") == 0 {
 			return drive.Stim{Kind: "event", Ev: &model.Ev{Kind: "signal", Ref: "zz"}}
 		}
-		return drive.Stim{Kind: "event", Ev: evOf(d.Alts[rapid.IntRange(0, n-1).Draw(rt, "which")])}
+		a := d.Alts[rapid.IntRange(0, n-1).Draw(rt, "which")]
+		if a.Kind == "timer" {
+			// the clock moves by 4, 6 or 10 s; the duration timer falls due (once)
+			// when it reaches 10 s after the creation of the instance
+			step := rapid.SampledFrom([]int{10, 10, 6, 4}).Draw(rt, "clockStep")
+			return drive.Stim{Kind: "clock", ClockS: step}
+		}
+		return drive.Stim{Kind: "event", Ev: evOf(a)}
+	}
+	// commit a stimulus that really enters the script: a clock step that
+	// reaches the due time carries the timer's (single) firing for the model
+	commit := func(s drive.Stim) drive.Stim {
+		if s.Kind == "clock" {
+			if clockNow < 10 && clockNow+s.ClockS >= 10 {
+				s.Ev = evOf(d.Alts[n-1])
+			}
+			clockNow += s.ClockS
+		}
+		return s
+	}
+	key := func(e drive.Stim) string {
+		if e.Kind == "clock" {
+			return "clock"
+		}
+		return e.Ev.Kind + e.Ev.Ref
 	}
 	if d.PreTask && rapid.Bool().Draw(rt, "earlyEvent") {
 		// an event before the gateway is reached has no effect
-		d.Script = append(d.Script, ev())
+		d.Script = append(d.Script, commit(ev()))
 	}
 	if d.PreTask {
 		d.Script = append(d.Script, drive.Stim{Kind: "answer"})
@@ -110,12 +151,11 @@ func draw(rt *rapid.T) descriptor {
 			seen := map[string]bool{}
 			for j := 0; j < k; j++ {
 				e := ev()
-				key := e.Ev.Kind + e.Ev.Ref
-				if seen[key] {
+				if seen[key(e)] {
 					continue
 				}
-				seen[key] = true
-				bs = append(bs, e)
+				seen[key(e)] = true
+				bs = append(bs, commit(e))
 			}
 			d.Script = append(d.Script, drive.Stim{Kind: "burst", Burst: bs})
 			matched += len(bs)
@@ -124,7 +164,7 @@ func draw(rt *rapid.T) descriptor {
 			if matched >= 1 && maxLate == 0 {
 				break
 			}
-			d.Script = append(d.Script, ev())
+			d.Script = append(d.Script, commit(ev()))
 			matched++
 			i++
 		}
@@ -133,34 +173,37 @@ func draw(rt *rapid.T) descriptor {
 	d.Script = append(d.Script, drive.Stim{Kind: "answer"})
 	nl := rapid.IntRange(0, maxLate).Draw(rt, "late")
 	for i := 0; i < nl; i++ {
-		d.Script = append(d.Script, ev())
+		d.Script = append(d.Script, commit(ev()))
 	}
 	if maxLate > 0 && rapid.IntRange(0, 2).Draw(rt, "loop") == 0 {
 		// re-entry: whenever alternative 0 wins the token returns to the gateway;
 		// further rounds of events and answers
 		d.Loop = true
 		for i := rapid.IntRange(1, 4).Draw(rt, "rounds"); i > 0; i-- {
-			d.Script = append(d.Script, drive.Stim{Kind: "answer"}, ev())
+			d.Script = append(d.Script, drive.Stim{Kind: "answer"}, commit(ev()))
 		}
-		d.Script = append(d.Script, drive.Stim{Kind: "answer"}, drive.Stim{Kind: "event", Ev: evOf(d.Alts[1])}, drive.Stim{Kind: "answer"})
+		if d.Alts[1].Kind != "timer" {
+			d.Script = append(d.Script, drive.Stim{Kind: "answer"}, drive.Stim{Kind: "event", Ev: evOf(d.Alts[1])})
+		}
+		d.Script = append(d.Script, drive.Stim{Kind: "answer"})
 	}
 	return d
 }
 
 func run(d descriptor) *drive.ScriptOutcome {
-	c := &drive.ScriptCase{Graph: build(d), Lang: "expr", Script: d.Script, Perturb: d.Perturb, PerturbSites: []string{"ebg.cas", "tracer.send"}, Drain: true}
+	c := &drive.ScriptCase{Graph: build(d), Lang: "expr", Script: d.Script, Perturb: d.Perturb, PerturbSites: []string{"ebg.cas", "tracer.send"}, Drain: true, MockClock: d.Timer}
 	return drive.RunScript(c)
 }
 
 func classify(d descriptor, out *drive.ScriptOutcome) (cls []string, nt bool) {
 	distinct := map[string]bool{}
 	concurrent, late := false, 0
-	afterAnswer := false
+	afterAnswer, timerRace := false, false
 	answers := 0
 	for _, s := range d.Script {
 		switch s.Kind {
-		case "event":
-			if s.Ev.Ref != "zz" {
+		case "event", "clock":
+			if s.Ev != nil && s.Ev.Ref != "zz" {
 				distinct[s.Ev.Ref] = true
 				if afterAnswer {
 					late++
@@ -169,9 +212,12 @@ func classify(d descriptor, out *drive.ScriptOutcome) (cls []string, nt bool) {
 		case "burst":
 			m := 0
 			for _, b := range s.Burst {
-				if b.Ev.Ref != "zz" {
+				if b.Ev != nil && b.Ev.Ref != "zz" {
 					distinct[b.Ev.Ref] = true
 					m++
+					if b.Kind == "clock" {
+						timerRace = true
+					}
 				}
 			}
 			if m >= 2 {
@@ -193,6 +239,12 @@ func classify(d descriptor, out *drive.ScriptOutcome) (cls []string, nt bool) {
 	}
 	if concurrent {
 		cls = append(cls, "concurrentEvents")
+	}
+	if d.Timer {
+		cls = append(cls, "timerAlternative")
+	}
+	if timerRace {
+		cls = append(cls, "timerDueDuringConcurrentDelivery")
 	}
 	if late > 0 {
 		cls = append(cls, "lateLosingDelivery")
